@@ -626,15 +626,13 @@ def response_coefficients(
         ResponseCoefficientsByPars: Object containing the response coefficients for the given parameters
 
     """
-    if variables is not None:
-        model.update_variables(variables)
-
     res = parallelise(
         fn=partial(
             _update_parameters_and_initial_conditions,
             fn=partial(
                 mca.response_coefficients,
                 to_scan=to_scan,
+                variables=variables,
                 normalized=normalized,
                 displacement=displacement,
                 rel_norm=rel_norm,
